@@ -104,6 +104,28 @@ Theorem C04_crash_during_retry : forall c w, store_inv c w -> c_dirty w = true -
 Proof. exact crash_during_retry. Qed.
 Print Assumptions C04_crash_during_retry.
 
+(* ... connected to the runner model: when no write fails, a history with crashes IS the runner model's history with ERestart
+   for each crash (so every theorem about [run_events] applies); a step whose write fails followed by the successful retry is
+   the step with an immediate write; a step whose write fails followed by a crash is the crash alone (same tasks, nothing
+   running, same store): the unacknowledged step is lost and nothing else *)
+Theorem C04_crun_is_run_events : forall c evs w, all_written evs = true -> c_dirty w = false -> c_disk w = tasks (c_mem w) ->
+  c_dirty (crun c w evs) = false /\ c_disk (crun c w evs) = tasks (c_mem (crun c w evs)) /\
+  c_mem (crun c w evs) = run_events c (c_mem w) (flat_map cerase evs).
+Proof. exact crun_is_run_events. Qed.
+Print Assumptions C04_crun_is_run_events.
+
+Theorem C04_failed_then_retry : forall c w e, c_dirty w = false -> e <> ERestart ->
+  cstep c (cstep c w (CStep e false)) CRetry = cstep c w (CStep e true).
+Proof. exact failed_then_retry. Qed.
+Print Assumptions C04_failed_then_retry.
+
+Theorem C04_failed_then_crash : forall c w e, c_dirty w = false -> e <> ERestart ->
+  tasks (c_mem (cstep c (cstep c w (CStep e false)) CCrash)) = tasks (c_mem (cstep c w CCrash)) /\
+  running (c_mem (cstep c (cstep c w (CStep e false)) CCrash)) = [] /\
+  c_disk (cstep c (cstep c w (CStep e false)) CCrash) = c_disk w.
+Proof. exact failed_then_crash. Qed.
+Print Assumptions C04_failed_then_crash.
+
 (* the hypothesis is tied to the code twice: (T) over the step list of State.Unlock regenerated from overlord/state/state.go
    on every run: in Unlock the data is marshalled and the checkpoint written before the state lock is released (a deferred
    unlock, no other unlock before the last Checkpoint call, no goroutine); the closure returned by Unlocker - the second
